@@ -203,6 +203,7 @@ public:
 #if !(FASTOR_NO_ALIAS)
         if (_does_alias) {
             _does_alias = false;
+            FASTOR_VERIF_ROUTE("view.alias_copy.tensor_random_views");
             // Evaluate this into a temporary
             auto tmp_this_tensor = get_tensor();
             auto tmp = TensorRandomViewExpr<Tensor<T,N>,Tensor<Int,IterSize>,1>(tmp_this_tensor,it_expr);
@@ -251,6 +252,7 @@ public:
 #if !(FASTOR_NO_ALIAS)
         if (_does_alias) {
             _does_alias = false;
+            FASTOR_VERIF_ROUTE("view.alias_copy.tensor_random_views");
             // Evaluate this into a temporary
             auto tmp_this_tensor = get_tensor();
             auto tmp = TensorRandomViewExpr<Tensor<T,N>,Tensor<Int,IterSize>,1>(tmp_this_tensor,it_expr);
@@ -299,6 +301,7 @@ public:
 #if !(FASTOR_NO_ALIAS)
         if (_does_alias) {
             _does_alias = false;
+            FASTOR_VERIF_ROUTE("view.alias_copy.tensor_random_views");
             // Evaluate this into a temporary
             auto tmp_this_tensor = get_tensor();
             auto tmp = TensorRandomViewExpr<Tensor<T,N>,Tensor<Int,IterSize>,1>(tmp_this_tensor,it_expr);
@@ -341,6 +344,7 @@ public:
 #if !(FASTOR_NO_ALIAS)
         if (_does_alias) {
             _does_alias = false;
+            FASTOR_VERIF_ROUTE("view.alias_copy.tensor_random_views");
             // Evaluate this into a temporary
             auto tmp_this_tensor = get_tensor();
             auto tmp = TensorRandomViewExpr<Tensor<T,N>,Tensor<Int,IterSize>,1>(tmp_this_tensor,it_expr);
@@ -383,6 +387,7 @@ public:
 #if !(FASTOR_NO_ALIAS)
         if (_does_alias) {
             _does_alias = false;
+            FASTOR_VERIF_ROUTE("view.alias_copy.tensor_random_views");
             // Evaluate this into a temporary
             auto tmp_this_tensor = get_tensor();
             auto tmp = TensorRandomViewExpr<Tensor<T,N>,Tensor<Int,IterSize>,1>(tmp_this_tensor,it_expr);
@@ -425,6 +430,7 @@ public:
 #if !(FASTOR_NO_ALIAS)
         if (_does_alias) {
             _does_alias = false;
+            FASTOR_VERIF_ROUTE("view.alias_copy.tensor_random_views");
             // Evaluate this into a temporary
             auto tmp_this_tensor = get_tensor();
             auto tmp = TensorRandomViewExpr<Tensor<T,N>,Tensor<Int,IterSize>,1>(tmp_this_tensor,it_expr);
@@ -730,6 +736,7 @@ public:
 #if !(FASTOR_NO_ALIAS)
         if (_does_alias) {
             _does_alias = false;
+            FASTOR_VERIF_ROUTE("view.alias_copy.tensor_random_views");
             // Evaluate this into a temporary
             auto tmp_this_tensor = get_tensor();
             auto tmp = TensorRandomViewExpr<Tensor<T,Rest...>,Tensor<Int,IterSizes...>,DIMS>(tmp_this_tensor,it_expr);
@@ -773,6 +780,7 @@ public:
 #if !(FASTOR_NO_ALIAS)
         if (_does_alias) {
             _does_alias = false;
+            FASTOR_VERIF_ROUTE("view.alias_copy.tensor_random_views");
             // Evaluate this into a temporary
             auto tmp_this_tensor = get_tensor();
             auto tmp = TensorRandomViewExpr<Tensor<T,Rest...>,Tensor<Int,IterSizes...>,DIMS>(tmp_this_tensor,it_expr);
@@ -817,6 +825,7 @@ public:
 #if !(FASTOR_NO_ALIAS)
         if (_does_alias) {
             _does_alias = false;
+            FASTOR_VERIF_ROUTE("view.alias_copy.tensor_random_views");
             // Evaluate this into a temporary
             auto tmp_this_tensor = get_tensor();
             auto tmp = TensorRandomViewExpr<Tensor<T,Rest...>,Tensor<Int,IterSizes...>,DIMS>(tmp_this_tensor,it_expr);
@@ -855,6 +864,7 @@ public:
 #if !(FASTOR_NO_ALIAS)
         if (_does_alias) {
             _does_alias = false;
+            FASTOR_VERIF_ROUTE("view.alias_copy.tensor_random_views");
             // Evaluate this into a temporary
             auto tmp_this_tensor = get_tensor();
             auto tmp = TensorRandomViewExpr<Tensor<T,Rest...>,Tensor<Int,IterSizes...>,DIMS>(tmp_this_tensor,it_expr);
@@ -893,6 +903,7 @@ public:
 #if !(FASTOR_NO_ALIAS)
         if (_does_alias) {
             _does_alias = false;
+            FASTOR_VERIF_ROUTE("view.alias_copy.tensor_random_views");
             // Evaluate this into a temporary
             auto tmp_this_tensor = get_tensor();
             auto tmp = TensorRandomViewExpr<Tensor<T,Rest...>,Tensor<Int,IterSizes...>,DIMS>(tmp_this_tensor,it_expr);
@@ -931,6 +942,7 @@ public:
 #if !(FASTOR_NO_ALIAS)
         if (_does_alias) {
             _does_alias = false;
+            FASTOR_VERIF_ROUTE("view.alias_copy.tensor_random_views");
             // Evaluate this into a temporary
             auto tmp_this_tensor = get_tensor();
             auto tmp = TensorRandomViewExpr<Tensor<T,Rest...>,Tensor<Int,IterSizes...>,DIMS>(tmp_this_tensor,it_expr);
